@@ -888,6 +888,8 @@ type stream struct {
 }
 
 type world struct {
+	blockFor     time.Duration // how long the next RTCP read blocks inside the wrapped reader
+	readReturned time.Time     // clock when the wrapped RTCP reader last returned
 	c      *vf.Case
 	r      *vf.Rand
 	icpt   interceptor.Interceptor
@@ -950,6 +952,12 @@ func newWorld(c *vf.Case, clockMode int, base time.Time, tick time.Duration) *wo
 func (w *world) bindRTCP() {
 	w.rtcpR = w.icpt.BindRTCPReader(interceptor.RTCPReaderFunc(
 		func(b []byte, a interceptor.Attributes) (int, interceptor.Attributes, error) {
+			// a read loop blocks in the wrapped reader until a packet arrives: time passes inside
+			// the call, and the arrival instant is when it returns
+			if w.blockFor > 0 {
+				w.clk.advance(w.blockFor)
+			}
+			w.readReturned = w.clk.peek()
 			if w.nextErr {
 				return 0, a, errInjected
 			}
@@ -1429,6 +1437,11 @@ func (w *world) inRTCP(pkts []rtcp.Packet, readErr bool) {
 		return
 	}
 	w.nextRaw, w.nextErr = raw, readErr
+	w.blockFor = 0
+	if w.r.Chance(0.3) {
+		w.blockFor = time.Duration(w.r.Pick(1, 20, 1000, 2500)) * time.Millisecond
+		w.add("rtcp_in_reads_that_blocked_before_the_packet_arrived", 1)
+	}
 	w.clk.calls = w.clk.calls[:0]
 	before := w.clk.peek()
 	buf := make([]byte, len(raw)+w.r.Pick(0, 4, 1500))
@@ -1450,7 +1463,16 @@ func (w *world) inRTCP(pkts []rtcp.Packet, readErr bool) {
 	}
 	w.add("rtcp_in_compounds", 1)
 	w.noteCompound(parsed, true)
-	ts := w.opTimes(before)
+	// the batch arrived when the wrapped reader returned: clock readings taken before that are
+	// not arrival times
+	kept := w.clk.calls[:0]
+	for _, t := range w.clk.calls {
+		if !t.Before(w.readReturned) {
+			kept = append(kept, t)
+		}
+	}
+	w.clk.calls = kept
+	ts := w.opTimes(w.readReturned)
 	pre := map[*stream]*model{}
 	for _, s := range w.boundStreams() {
 		pre[s] = s.m.clone()
